@@ -10,12 +10,12 @@ type StackN<const N: usize, const S: usize> = any_vec::mem::StackN<N, S>;
 
 #[cfg(feature = "lib_alloc")]
 anyvec_pbt::configs! {
-    Tr1_Multi:    Tr1,    Multi, dyn Cloneable, G_LAYOUT;
-    Tr24_Multi:   Tr24,   Multi, dyn Cloneable, G_LAYOUT | G_CORE;
-    Pl8_Multi:    Pl8,    Multi, dyn Cloneable, G_LAYOUT;
+    Tr1_Multi:    Tr1,    Multi, dyn Cloneable, G_LAYOUT | G_FAULT;
+    Tr24_Multi:   Tr24,   Multi, dyn Cloneable, G_LAYOUT | G_CORE | G_FAULT;
+    Pl8_Multi:    Pl8,    Multi, dyn Cloneable, G_LAYOUT | G_FAULT;
     Pl3_Heap:     Pl3,    Heap,   dyn Cloneable, G_BACKEND | G_RAW;
     Tr8_Empty:    Tr8,    any_vec::mem::Empty, dyn Cloneable, G_RAW;
-    Tr8_Stack:    Tr8,    Stack<40>,      dyn Cloneable, G_BACKEND | G_STACK;
+    Tr8_Stack:    Tr8,    Stack<40>,      dyn Cloneable, G_BACKEND | G_STACK | G_FAULT;
     Tr24_StackN:  Tr24,   StackN<3, 72>,  dyn Cloneable, G_BACKEND | G_STACK;
     Tr8_Heap_SS:    Tr8, Heap, dyn Send + Sync,             G_CONSTRAINT | G_RAW;
 }
